@@ -126,3 +126,90 @@ pub fn extras() -> Vec<&'static str> {
         "1,CONSUMO,CAL,ELECTRICIDAD,40,30,0,20\n1,CONSUMO,ACS,ELECTRICIDAD,10,10,0,10\n1,SALIDA,CAL,120,90,0,60\n1,SALIDA,ACS,25,25,0,25\n1,AUX,3,3,3,3\n2,CONSUMO,REF,ELECTRICIDAD,0,5,30,0\n3,PRODUCCION,EL_INSITU,5,20,40,10\n4,CONSUMO,ILU,ELECTRICIDAD,6,6,6,6",
     ]
 }
+
+/// `n` seeded buildings as component files over the whole vocabulary of the format: 1-4 systems with ids from {-2..7} (ids may repeat),
+/// each an electric system (1-2 services, optional outputs and auxiliaries), a boiler (9 fuels / district networks), a heat pump
+/// (electricity + ambient heat, production declared in full, in part, in excess or not at all), a solar thermal system, a cogeneration
+/// unit (fossil or biomass fuel, one or two production lines) or a non-EPB use; optional photovoltaic production, demand lines and a
+/// general EPB electricity use; 1 to 30 time steps; values from {0, 0.01, 0.5, 1, 3.3, 10, 25.5} (kept small so that f32 rounding noise stays below the comparison tolerance)
+pub fn random_texts(seed: u64, n: usize) -> Vec<String> {
+    let mut r = Rng(seed ^ 0x7E47_5EED);
+    let vals = [0.0f32, 0.0, 0.01, 0.5, 1.0, 3.3, 10.0, 25.5];
+    let steps_opts = [1usize, 2, 3, 4, 12, 13, 25, 30];
+    let fuels = ["GASNATURAL", "GASOLEO", "GLP", "BIOMASA", "BIOMASADENSIFICADA", "CARBON", "RED1", "RED2", "BIOCARBURANTE"];
+    let cgn_fuels = ["GASNATURAL", "GASOLEO", "GLP", "BIOMASA", "BIOMASADENSIFICADA"];
+    let epb = ["CAL", "ACS", "REF", "VEN", "ILU"];
+    let ids = [-2i32, -1, 0, 1, 2, 3, 7];
+    let mut out = vec![];
+    for _ in 0..n {
+        let ns = *r.pick(&steps_opts);
+        let raw = |r: &mut Rng, scale: f32| -> Vec<f32> { (0..ns).map(|_| *r.pick(&vals) * scale).collect() };
+        let fmt = |v: &[f32]| -> String { v.iter().map(|x| format!("{}", x)).collect::<Vec<_>>().join(",") };
+        let mut l: Vec<String> = vec![];
+        let nsys = 1 + r.next() % 4;
+        for _ in 0..nsys {
+            let id = *r.pick(&ids);
+            match r.next() % 6 {
+                0 => {
+                    let s1 = *r.pick(&epb);
+                    let s2 = *r.pick(&epb);
+                    let two = s1 != s2 && r.next() % 2 == 0;
+                    l.push(format!("{},CONSUMO,{},ELECTRICIDAD,{}", id, s1, fmt(&raw(&mut r, 1.0))));
+                    if two { l.push(format!("{},CONSUMO,{},ELECTRICIDAD,{}", id, s2, fmt(&raw(&mut r, 0.5)))); }
+                    let aux = r.next() % 2 == 0;
+                    if aux || r.next() % 3 == 0 {
+                        // outputs: positive, cooling negative; never zero in a step (that class is the known finding D8)
+                        let o = |r: &mut Rng, s: &str| -> Vec<f32> { (0..ns).map(|_| (1.0 + (r.next() % 90) as f32) * if s == "REF" { -1.0 } else { 1.0 }).collect() };
+                        l.push(format!("{},SALIDA,{},{}", id, s1, fmt(&o(&mut r, s1))));
+                        if two { l.push(format!("{},SALIDA,{},{}", id, s2, fmt(&o(&mut r, s2)))); }
+                    }
+                    if aux { l.push(format!("{},AUX,{}", id, fmt(&raw(&mut r, 0.1)))); }
+                }
+                1 => {
+                    let s = *r.pick(&epb[..3]);
+                    l.push(format!("{},CONSUMO,{},{},{}", id, s, r.pick(&fuels), fmt(&raw(&mut r, 2.0))));
+                    if r.next() % 3 == 0 { l.push(format!("{},AUX,{}", id, fmt(&raw(&mut r, 0.05)))); }
+                }
+                2 => {
+                    let s = *r.pick(&epb[..3]);
+                    let el = raw(&mut r, 1.0);
+                    let amb: Vec<f32> = el.iter().map(|x| x * 2.0).collect();
+                    l.push(format!("{},CONSUMO,{},ELECTRICIDAD,{}", id, s, fmt(&el)));
+                    l.push(format!("{},CONSUMO,{},EAMBIENTE,{}", id, s, fmt(&amb)));
+                    match r.next() % 4 {
+                        0 => l.push(format!("{},PRODUCCION,EAMBIENTE,{}", id, fmt(&amb))),
+                        1 => l.push(format!("{},PRODUCCION,EAMBIENTE,{}", id, fmt(&amb.iter().map(|x| x * 0.5).collect::<Vec<_>>()))),
+                        2 => l.push(format!("{},PRODUCCION,EAMBIENTE,{}", id, fmt(&raw(&mut r, 3.0)))),
+                        _ => {}
+                    }
+                }
+                3 => {
+                    l.push(format!("{},CONSUMO,ACS,TERMOSOLAR,{}", id, fmt(&raw(&mut r, 1.0))));
+                    if r.next() % 2 == 0 { l.push(format!("{},PRODUCCION,TERMOSOLAR,{}", id, fmt(&raw(&mut r, 1.5)))); }
+                }
+                4 => {
+                    let el = raw(&mut r, 1.0);
+                    let ratio = 2.0 + (r.next() % 4) as f32;
+                    l.push(format!("{},CONSUMO,COGEN,{},{}", id, r.pick(&cgn_fuels), fmt(&el.iter().map(|x| x * ratio).collect::<Vec<_>>())));
+                    if r.next() % 3 == 0 {
+                        l.push(format!("{},PRODUCCION,EL_COGEN,{}", id, fmt(&el.iter().map(|x| x * 0.25).collect::<Vec<_>>())));
+                        l.push(format!("{},PRODUCCION,EL_COGEN,{}", id, fmt(&el.iter().map(|x| x * 0.75).collect::<Vec<_>>())));
+                    } else {
+                        l.push(format!("{},PRODUCCION,EL_COGEN,{}", id, fmt(&el)));
+                    }
+                }
+                _ => {
+                    let cr = *r.pick(&["ELECTRICIDAD", "ELECTRICIDAD", "ELECTRICIDAD", "EAMBIENTE", "TERMOSOLAR", "GASNATURAL"]);
+                    l.push(format!("{},CONSUMO,NEPB,{},{}", id, cr, fmt(&raw(&mut r, 1.0))));
+                }
+            }
+        }
+        if r.next() % 5 != 0 { l.push(format!("0,CONSUMO,{},ELECTRICIDAD,{}", r.pick(&epb), fmt(&raw(&mut r, 1.0)))); }
+        if r.next() % 5 < 3 { l.push(format!("8,PRODUCCION,EL_INSITU,{}", fmt(&raw(&mut r, 1.0)))); }
+        if r.next() % 3 == 0 { l.push(format!("DEMANDA,{},{}", r.pick(&epb[..3]), fmt(&raw(&mut r, 3.0)))); }
+        // random line order (the result must not depend on it; the predicates do not either)
+        for i in (1..l.len()).rev() { let j = (r.next() % (i as u64 + 1)) as usize; l.swap(i, j); }
+        out.push(l.join("\n"));
+    }
+    out
+}
